@@ -141,6 +141,9 @@ pub fn gen_elf(rng: &mut Rng, trailing_nonload: bool) -> Vec<u8> {
             "___exit".to_string()
         } else if rng.chance(1, 10) {
             String::new()
+        } else if rng.chance(1, 8) {
+            // near misses of the exit symbol: only the exact name counts
+            rng.pick(&["___exit2", "__exit", "___exi", "____exit", "___EXIT", "_exit", "exit", "___exit_", "x___exit"]).to_string()
         } else {
             let n = graphic_name(rng, 24);
             if n == "___exit" {
@@ -182,6 +185,15 @@ pub fn gen_elf(rng: &mut Rng, trailing_nonload: bool) -> Vec<u8> {
         Sec { name: ".data".into(), ty: 1, addr: 0x100, off: 60, size: 8, link: 0, entsize: 0 },
         Sec { name: ".bss".into(), ty: 8, addr: 0x200, off: 0, size: 64, link: 0, entsize: 0 },
     ];
+    // decoy sections whose names only resemble the ones the loader acts on (exact names count); their fields point
+    // into the image so that acting on one of them would change DRAM or the registers
+    for _ in 0..rng.below(4) {
+        let name = *rng.pick(&[".got.plt", ".gotx", ".go", "got", ".GOT", ".stack2", ".stac", "stack", ".symtab2", ".symta", ".dynsym", ".rela.got", ".comment"]);
+        if secs.iter().any(|x| x.name == name) {
+            continue;
+        }
+        secs.push(Sec { name: name.into(), ty: *rng.pick(&[1u32, 2, 8, 3]), addr: if got_size > 0 { got_addr } else { 4 * rng.below(64) as u32 }, off: symtab_off, size: 4 * rng.range(1, 8) as u32, link: 0, entsize: *rng.pick(&[0u32, 4, 16]) });
+    }
     for i in (1..secs.len()).rev() {
         secs.swap(i, rng.below(i as u64 + 1) as usize);
     }
